@@ -9,7 +9,9 @@ import StorageModel.Generated.AcceptTable
      tag    p = query text parsed by the real ast.Parse, s = real tree built field by field,
             u = untyped tree as the parse listener leaves it (only the traversal is observed),
             a = query assembled through the exported API (recipe in <query>; harness/c20_api.go)
-     maps, pub   comma separated names `x<hex>`, `-` for the empty list
+     maps, pub   comma separated names `x<hex>`, `-` for the empty list; for a child store (StoreDefinition.Parent
+            set) the lists of the stores up the parent chain follow, nearest first, separated by `^`
+            (`<own>^<parent>^<grandparent>`; <mask> is then `<own>^<parent>^…` too) — the validating store is the first
      tree   pre-order:  Z  |  T <kind> (typed nil pointer in an interface)  |  N <kind> <#strs> {<field> x<hex>} <#kids> {<label> <tree>}
    model output:  ok v=<visited> g=<…> gp=<0|1>  |  err x<hex> v=<visited> g=<…> gp=<0|1>  |  panic  |  - v=<visited> (tag u)  |  bad-shape
    tag a lines end with `// X <names> // G <names>`: the identifiers the recipe hands to the API (X) and the sort clause in
@@ -105,24 +107,30 @@ structure Case where
 def parseCase (line : String) : Option Case :=
   match splitSp line with
   | tag :: _mask :: maps :: pub :: _query :: toks => do
-    let m ← decodeNames maps
-    let p ← decodeNames pub
+    let (m, pm) ← match ← (maps.splitOn "^").mapM decodeNames with
+      | m :: pm => some (m, pm)
+      | [] => none
+    let (p, pp) ← match ← (pub.splitOn "^").mapM decodeNames with
+      | p :: pp => some (p, pp)
+      | [] => none
+    if pm.length != pp.length then none
+    let cfg : PubCfg := { maps := m, pub := p, parents := pm.zip pp }
     let (t, rest) ← parseTree toks
     match rest with
-    | [] => some { tag := tag, cfg := { maps := m, pub := p }, tree := t, source := none }
+    | [] => some { tag := tag, cfg := cfg, tree := t, source := none }
     | ["//", "X", xs, "//", "G", _gs] =>
       -- tag a: what the assembled query references by construction (computed by the harness from the recipe's
       -- inputs); the specification judges against the tree's symbols AND these
       let x ← decodeNames xs
-      some { tag := tag, cfg := { maps := m, pub := p }, tree := t, source := none, expected := x }
+      some { tag := tag, cfg := cfg, tree := t, source := none, expected := x }
     | "//" :: more =>
       let (u, rest) ← parseTree more
       match rest with
-      | [] => some { tag := tag, cfg := { maps := m, pub := p }, tree := t, source := some u }
+      | [] => some { tag := tag, cfg := cfg, tree := t, source := some u }
       | "//" :: tab =>
         let (entries, rest) ← parseTab tab
         if rest.isEmpty then
-          some { tag := tag, cfg := { maps := m, pub := p }, tree := t, source := some u, symtab := some (toSymTab entries) }
+          some { tag := tag, cfg := cfg, tree := t, source := some u, symtab := some (toSymTab entries) }
         else none
       | _ => none
     | _ => none
